@@ -51,7 +51,8 @@ def showCtx (c : RunnerCtx) : String :=
 
 def showMarket (m : Market) : String :=
   ":".intercalate [toString m.id, showBool m.closed, showNats m.blotter, showNats m.live, showBool m.active,
-    showBool m.hasAnalytics]
+    showBool m.hasAnalytics,
+    (if m.removals.isEmpty then "." else "+".intercalate (m.removals.map fun k => toString k.1 ++ "@" ++ showRat k.2.1 ++ "@" ++ showOptRat k.2.2))]
 
 def showClient (c : Client) : String :=
   ":".intercalate [toString c.id, toString c.counter.count, toString c.counter.failed, toString c.counter.curCount,
